@@ -265,7 +265,30 @@ pub fn run(tape: &mut Tape, props: Props, p: &Params, trace_on: bool) -> Outcome
         if tstamp[i] {
             s.set_tsval_generator(Some(tsval_gen));
         }
+        // (derived from the stream key, not drawn: a hop limit other than the default on some endpoints)
+        if key[i] & 4 == 0 {
+            s.set_hop_limit(Some(1 + ((key[i] >> 8) % 254) as u8));
+        }
+        // idle bystander sockets: with several sockets in the set the interface has to combine deadlines
+        // of sockets that have one with sockets that have none
+        let bystander = |n: &mut Node| {
+            let mut l = tcp::Socket::new(tcp::SocketBuffer::new(vec![0; 64]), tcp::SocketBuffer::new(vec![0; 64]));
+            l.listen(9).unwrap();
+            n.sockets.add(l);
+            let mut u = smoltcp::socket::udp::Socket::new(
+                smoltcp::socket::udp::PacketBuffer::new(vec![smoltcp::socket::udp::PacketMetadata::EMPTY; 1], vec![0u8; 64]),
+                smoltcp::socket::udp::PacketBuffer::new(vec![smoltcp::socket::udp::PacketMetadata::EMPTY; 1], vec![0u8; 64]),
+            );
+            u.bind(9).unwrap();
+            n.sockets.add(u);
+        };
+        if i == 0 {
+            bystander(&mut nodes[i]);
+        }
         let h = nodes[i].sockets.add(s);
+        if i == 1 {
+            bystander(&mut nodes[i]);
+        }
         apps.push(App {
             h,
             to_send: to_send[i],
